@@ -6,6 +6,7 @@ import (
 	"errors"
 	"net"
 	"strings"
+	"time"
 
 	"github.com/mgtv-tech/redis-GunYu/pkg/redis/client/common"
 )
@@ -51,6 +52,22 @@ func VerifKickUpdate(c *Cluster) bool {
 	defer func() { recover() }() // closed channel on a closed cluster
 	c.updateList <- updateMesg{node: node}
 	return true
+}
+
+// VerifTryKickUpdate: as VerifKickUpdate, but gives up after `d` when the update goroutine does not take the
+// message (it is parked inside a CLUSTER SLOTS request of its own).
+func VerifTryKickUpdate(c *Cluster, d time.Duration) bool {
+	node, err := c.getRandomNode()
+	if err != nil {
+		return false
+	}
+	defer func() { recover() }()
+	select {
+	case c.updateList <- updateMesg{node: node}:
+		return true
+	case <-time.After(d):
+		return false
+	}
 }
 
 // VerifSlotAddr reads the client-side slot map.
